@@ -10,7 +10,7 @@ import os
 from .flow import Engine
 
 # which of the proposed patches are applied to the code under test (lead flips these together with the patch)
-MODEL_FIXES = os.environ.get("VERIF_TOPIC_FIXES", "0000")
+MODEL_FIXES = os.environ.get("VERIF_TOPIC_FIXES", "1111")
 
 ARITY = {"pub": 4, "cls": 3, "xs": 2, "ds": 2, "cvs": 2, "ics": 2, "sub": 3, "uns": 3, "clr": 3, "xr": 2,
          "dr": 2, "cvr": 2, "try": 2, "rto": 2, "mk": 3, "poll": 3, "df": 2, "pn": 3, "icr": 2, "emp": 2,
